@@ -16,7 +16,7 @@ from runtime import rt
 
 import signal  # noqa: E402
 
-CASE_TIMEOUT_S = 120
+CASE_TIMEOUT_S = 60
 
 
 class _CaseTimeout(BaseException):
@@ -78,11 +78,18 @@ class StandIn:
             n += 1
             try:
                 signal.signal(signal.SIGALRM, _on_alarm)
-                signal.alarm(CASE_TIMEOUT_S)
+                # a REPEATING timer: the clean-up code the first interruption runs through (`with scheduler.session()`
+                # -> end_session) may block again on the very defect that caused the hang
+                signal.setitimer(signal.ITIMER_REAL, CASE_TIMEOUT_S, 3)
                 try:
                     msg = self.check(reg, case)
                 finally:
-                    signal.alarm(0)
+                    while True:
+                        try:
+                            signal.setitimer(signal.ITIMER_REAL, 0)
+                            break
+                        except _CaseTimeout:
+                            continue
             except rt.ContractViolation as e:
                 msg = str(e)
             except _CaseTimeout:
@@ -104,6 +111,8 @@ class StandIn:
                     continue  # one representative per classified failure class
                 seen_tags.add(tag)
                 fails.append({"case": enc(case), "message": msg[:500], "tag": tag})
+                if tag == "hang":
+                    break       # decisive, and the interrupted code may have left threads / queues in any state
                 if len([f for f in fails if not f["tag"]]) >= 3:
                     break
         res = {"cases": n, "failures": fails}
